@@ -16,6 +16,7 @@ KNOWN_NONKAFKA_ESCAPE = "F12-nonkafka-error-escaping-join-swallowed"
 WHAT = {
     "fenced": "a running partition consumer does not carry the member's current generation/member id, or its partition is not in the current assignment",
     "startsCommitted": "consumers were started outside a successful sync reply, not from OFFSET_COMMITTED, or with a stale generation/member id",
+    "joinAdopted": "after a successful join reply the member's member id / generation are not the reply's (stale identity handed to consumers)",
     "joinAfterDrain": "a JoinGroup request was issued while a partition consumer was still running or draining",
     "joinNoRunning": "a JoinGroup request was issued while a partition consumer was still RUNNING",
     "evictionStopsFirst": "after an eviction error (illegal generation / unknown member / time-out) a consumer is still running, or a join/sync was issued in that step",
